@@ -53,7 +53,7 @@ BODY_CLASSES = [
     "errors_drawn", "raw_control_char", "data_with_floats", "odd_but_legal_json", "non_json_whitespace_padded",
 ]
 QUICK_STATUSES = [200, 201, 204, 299, 100, 199, 300, 301, 304, 400, 401, 404, 429, 500, 502, 503, 599]
-VIAS = ["execute", "get_item", "list_items", "ping", "create_item", "search_now", "custom_query"]
+VIAS = ["execute", "get_item", "list_items", "ping", "create_item", "search_now", "custom_query", "do_upload"]
 
 
 def setup(tier):
@@ -277,7 +277,13 @@ def simple_call(via, k):
     if via == "create_item":
         return {"via": via, "args": {"input": ("model", "ItemInput", {"name": ("str", "n%d" % k), "count": ("int", k)}, False)},
                 "multipart": False, "kw": kw}
+    if via == "do_upload":
+        # a multipart request: its body is streamed by the transport and never loaded on the request object
+        return {"via": via, "args": {"file": ("upload", 0), "files": ("unset",)}, "multipart": True, "kw": kw}
     raise ValueError(via)
+
+
+UPLOADS = [{"filename": "a.txt", "content_type": "text/plain", "data": "AAA", "short": 0}]
 
 
 def draw_case(case, ch: Choices):
@@ -289,6 +295,7 @@ def draw_case(case, ch: Choices):
     cfg["debug_logging"] = ch.chance("cfg.debug_logging", 1, 4)
     cfg["user_warnings_as_errors"] = ch.chance("cfg.user_warnings_as_errors", 1, 4)
     cfg["response_hook"] = ch.chance("cfg.response_hook", 1, 3)       # (a user-supplied http client with a logging hook)
+    cfg["classify_twice"] = ch.chance("cfg.classify_twice", 1, 3)     # (get_data called on the same response twice)
     calls = []
     if p.get("mode") == "enum":
         status = p["status"]
@@ -318,7 +325,7 @@ def draw_case(case, ch: Choices):
     for i, s in enumerate(calls):
         # some callers ask httpx to follow redirects, and the endpoint first answers 307/308 with a Location (the POST is
         # replayed there unchanged): the response to classify is the final one
-        if s["via"] != "custom_query" and ch.chance("resp.redirect_first", 1, 10):
+        if s["via"] not in ("custom_query", "do_upload") and ch.chance("resp.redirect_first", 1, 10):
             s["kw"] = dict(s["kw"], follow_redirects=True)
             s["resp"] = dict(s["resp"], redirect=[307, 308][ch.draw("resp.redirect_code", 2)])
         callers[i % ncallers].append(s)
@@ -326,7 +333,7 @@ def draw_case(case, ch: Choices):
     return cfg
 
 
-RESULT_MODEL = {"get_item": "GetItem", "list_items": "ListItems", "ping": "Ping", "create_item": "CreateItem", "search_now": "SearchNow"}
+RESULT_MODEL = {"do_upload": "DoUpload", "get_item": "GetItem", "list_items": "ListItems", "ping": "Ping", "create_item": "CreateItem", "search_now": "SearchNow"}
 
 
 def judge(cfg, recs, server, info, sent, res: RunResult, variant):
@@ -455,7 +462,7 @@ def run_case(case, ch: Choices) -> RunResult:
     sent: Dict[str, tuple] = {}
     repeated: Dict[str, int] = {}
     knobs = sched_knobs(cfg)
-    recs, server, info = hw.run_workload(ch, cfg["variant"], cfg["callers"], [], make_server_factory(resp_by_nonce, sent, repeated),
+    recs, server, info = hw.run_workload(ch, cfg["variant"], cfg["callers"], UPLOADS, make_server_factory(resp_by_nonce, sent, repeated),
                                          cfg["own_transport"], True, knobs)
     judge(cfg, recs, server, info, sent, res, cfg["variant"])
     for n_, k_ in sorted(repeated.items()):
@@ -475,6 +482,8 @@ def run_case(case, ch: Choices) -> RunResult:
     res.bump("variant." + cfg["variant"])
     if cfg.get("response_hook") and not cfg["own_transport"]:
         res.bump("env.http_client_with_response_logging_hook")
+    if cfg.get("classify_twice"):
+        res.bump("env.responses_classified_twice")
     res.bump("calls", len(recs))
     if info.get("switches"):
         res.bump("thread_switches", info["switches"])
